@@ -1,5 +1,8 @@
 pub mod common;
 pub mod c01;
+pub mod c02;
+pub mod c03;
+pub mod c14;
 
 use crate::report::{Local, Report};
 
@@ -9,5 +12,8 @@ pub type ReplayFn = fn(&str, &[String], &mut Local) -> bool;
 pub fn table() -> Vec<(&'static str, RunFn, ReplayFn)> {
     vec![
         ("C01", c01::run as RunFn, c01::replay as ReplayFn),
+        ("C02", c02::run as RunFn, c02::replay as ReplayFn),
+        ("C03", c03::run as RunFn, c03::replay as ReplayFn),
+        ("C14", c14::run as RunFn, c14::replay as ReplayFn),
     ]
 }
